@@ -2,16 +2,18 @@ PROPS["C10"] = dict(
     pkg="p_map", hooks=[], level="exploration", design="DESIGN.md §4 C10",
     technique="stateful model-based PBT (rapid) against a sequence-number model + bounded-exhaustive histories",
     rule="case = (key alphabet size 2..4, bound on open iterators, op list over Add/Remove/Get/Len/First/NewIterator/HasNext(i)/"
-         "Next(i)/Close(i); i is taken modulo the number of open iterators, an op without a target is a no-op); exhaustive over the "
-         "alphabet Add/Remove of every key, First, NewIterator, HasNext/Next/Close of every iterator slot for (2 keys, 2 iterators) "
-         "and (3 keys, 3 iterators) to the depths in exhaustive_parts (Len and Get of every key are called after every step, so they "
-         "are not separate letters), rapid lists of up to 100 (thorough 400) ops with up to 3 (6) open iterators; every case ends with "
-         "closing the open iterators and First/Len/Get/a fresh full iteration. Excluded by the documented precondition of Close: "
-         "using an iterator after Close, closing twice. non-trivial = the case closes or advances an iterator that is parked on a "
-         "removed entry, or removes the oldest live entry while an iterator is parked on it, or re-adds a removed key while an open "
-         "iterator has not passed the key's old position; distinct = FNV hash of (keys, iterator bound, op list)",
+         "Next(i)/Close(i); i is taken modulo the number of open iterators, an iterator op with no iterator open and NewIterator at the "
+         "bound are no-ops, so every list is executable). Exhaustive part: alphabet = Add/Remove of every key, First, NewIterator, "
+         "HasNext/Next/Close of every iterator slot, for (2 keys, 2 iterators) and (3 keys, 3 iterators), all lists up to the depths in "
+         "exhaustive_parts; only the canonical lists are run (no no-op, no index needing the modulo) because every other list is the "
+         "same history as a canonical list that is not longer; Len and Get of every key are called after every step, so they are not "
+         "separate letters. Rapid part: lists of up to 100 (thorough 400) ops, 2..4 keys, up to 3 (6) open iterators. Every case ends "
+         "with closing the iterators still open, then First/Len/Get and a fresh full iteration. Excluded by the documented "
+         "precondition of Close: using an iterator after Close, closing it twice. non-trivial = the case closes or advances an iterator "
+         "that is parked on a removed entry, or removes the oldest live entry while an iterator is parked on it, or re-adds a removed "
+         "key while an open iterator has not passed the key's old position; distinct = FNV hash of (keys, iterator bound, op list)",
     assumptions=["sequence-number model written from the C10 statement and the comments of container/iterable/iterator.go: an iterator is a "
-                 "position; Next returns the live entry with the smallest number >= position or (_, false)",
+                 "position; Next returns the live entry with the smallest number >= position and moves past it, or (_, false) without moving",
                  "HasNext is judged against the live set at the moment of its call; the documented HasNext/Next disparity (the map changed "
                  "between the two calls) is therefore accepted, and HasNext directly followed by Next on an unchanged map must agree",
                  "key and value returned together with flag false (Next, First, Get) are not compared (documented: may be default values); "
@@ -25,7 +27,8 @@ PROPS["C10"] = dict(
 
 LEVEL_TEXT["C10"] = (
     "Generated-input search with an exact oracle: every history over the full op alphabet up to a depth bound for 2 keys / 2 iterators "
-    "and 3 keys / 3 iterators, plus random long histories (up to 400 ops, 4 keys, 6 simultaneously open iterators, re-added keys) are "
-    "compared call by call with a sequence-number model of the ordered map, and every case is finished by closing all iterators and "
-    "using the map again. No counterexample among the cases counted in the evidence; not a proof for longer histories or larger maps."
+    "and 3 keys / 3 iterators (run through its canonical representative), plus random long histories (up to 400 ops, 4 keys, 6 "
+    "simultaneously open iterators, re-added keys) are compared call by call with a sequence-number model of the ordered map, and "
+    "every case is finished by closing all iterators and using the map again. No counterexample among the cases counted in the "
+    "evidence; not a proof for longer histories or larger maps."
 )
